@@ -37,9 +37,9 @@ CLAIMED = {
  "C13": ("newPkg: the name->object tables of a loaded package are proved to hold EXACTLY the package-scope type names, constants and functions of the type checker (both inclusions, for every types.Info.Defs map and every iteration order: a function-local declaration or type parameter of the same name can never be recorded); Type/Types/Constant(s)/Function(s) return those tables; every method recorded under N is declared on (an instantiation of) N, keyed by the ORIGIN type so generic T works, and MethodsOf(T,false) is exactly the value-receiver subset of MethodsOf(T,true); Imports() maps every import path to Universe.Package(path); SourceDir/Module/Files/Pkg observers. Partial: completeness of the method table (every declared method is listed) and LocateInPackage are not decided.",
          "go/types facts assumed (listed in evidence): Scope.Lookup(obj.Name()) == obj for package-scope objects, scope functions have no receiver, Origin() idempotent; go/packages populates Imports for every import path (E-load)",
          "deductive verification: whole-map postconditions + loop invariants over an arbitrary-order map range, discharged by SMT", "3/C13"),
- "C14": ("visits.visited marks the (function type, index) pair and reports whether it was marked (whole-map postcondition), funcResultsFromSignature yields exactly n one-element lists, Concat merges position-wise; all slice indices in these functions in bounds. Partial: the resolver's recursion structure and per-path result counts are added as built.",
-         "go/types observers (Tuple.Len/At, Signature.Results) assumed; go/ast field lists contain no nil entries (requires); assignability/exactness clauses of the statement not decided",
-         "deductive verification: safety + functional obligations discharged by SMT", "3/C14"),
+ "C14": ("visits.visited marks the (function type, index) pair and reports whether it was marked (whole-map postcondition); funcResultsFromSignature yields exactly n one-element lists; Concat merges position-wise; resultsFromAst returns exactly n non-empty lists whenever a syntax node exists (bodyless declarations included), whatever the per-slot iterators yield; Results / ResultsOf return n and exactly n non-empty lists for every signature whose recorded node is a declaration, a literal, a selector naming a function, a call, or absent (condition spec_knownShape, stated in the contract); callExprResultAt: every tuple index in range, no nil dereference, no yield after stop. Partial: termination of the mutually recursive resolver and the 'assignable alternatives' / 'exactly the literal values' clauses are not decided; thorough tier adds a bounded probe over generated function shapes (recursion, grouped results, closures wider than the callee, bodyless).",
+         "go/types and go/ast facts assumed (listed in evidence): FuncDecl/FuncLit have a Type, tuple elements are non-nil typed variables, a *types.Func's type is a *types.Signature; frames of the resolver iterators resultsFromAstAt / resultsAt / resultsAtReturnOrAssignment are TRUSTED (they never store into a resolver, a pkgInfo or go/packages records)",
+         "deductive verification: shape postconditions + safety sweep discharged by SMT; bounded probe in the thorough tier", "3/C14"),
  "C15": ("ParseRef and PkgImportPathAndExpose are proved against ONE definition of the split point (last '.' before the first '['), for every string: they agree by construction of their contracts; Ref/ref.String/ref.Name observers. Partial: ParseTypeRef round trip and processName are added as built.",
          "strings.Index/LastIndex extern contracts (first/last occurrence of a byte)",
          "deductive verification: postconditions over shared spec functions", "3/C15"),
